@@ -144,6 +144,11 @@ func (s *scanner) Length() (uint, error) {
 			length--
 		}
 	}
+	if length > uint(s.dataSize) {
+		// A comment left open at the end of the data is closed implicitly,
+		// its end lexeme points behind the data.
+		length = uint(s.dataSize)
+	}
 	for ; length > 0; length-- {
 		c := s.data[length-1]
 		if !bytes.IsBlank(c) {
